@@ -22,6 +22,7 @@ import (
 	"github.com/ory/keto/internal/relationtuple"
 	"github.com/ory/keto/internal/x"
 	"github.com/ory/keto/internal/x/graph"
+	"github.com/ory/keto/internal/x/verifhook"
 	"github.com/ory/keto/ketoapi"
 )
 
@@ -86,6 +87,7 @@ func (e *Engine) CheckRelationTuple(ctx context.Context, r *relationTuple, restD
 
 	resultCh := make(chan checkgroup.Result)
 	go e.checkIsAllowed(ctx, r, restDepth, false)(ctx, resultCh)
+	verifhook.Point("engine.select")
 	select {
 	case result := <-resultCh:
 		trace.SpanFromContext(ctx).AddEvent(events.NewPermissionsChecked(ctx))
